@@ -481,7 +481,11 @@ def check(repo: Repo, run: Run) -> None:
     fn, rec, ev, st, tid, eid, win = common(end_m)
     # `windows.pop(code, None)` with the result tested against None (often in one walrus expression) folds the "is this code
     # open" test and the removal into one step: a form of the END action these rules do not describe
-    k4_undecided = any(e.kind == "mut-call" and e.key == "pop" and len(e.args) == 2 for e in rec.effects)
+    pops2 = [T("call", (T("attr", (e.base, "pop")), tuple(e.args), ())) for e in rec.effects
+             if e.kind == "mut-call" and e.key == "pop" and len(e.args) == 2]
+    # (only when the popped value is then TESTED to tell a stray END: `pop(code, [])` used as it comes is an ordinary pop)
+    k4_undecided = any(r_.kind == "return" and r_.value == const(None) and any(sym.contains(c_, pt) for c_, _ in r_.pc)
+                       for r_ in rec.returns for pt in pops2)
     if k4_undecided:
         run.floor_failures.append(f"C04/K4: {end_m} removes the window with pop(code, <default>): the END action is not decided")
     ob4 = (lambda *a_, **k_: None) if k4_undecided else run.ob
